@@ -162,6 +162,11 @@ pub fn longest_match(
         let res_match = parse_context.check_parse_cache(loc_key, matcher_key);
         #[cfg(sqruff_verif)]
         let verif_hit = res_match.is_some();
+        #[cfg(sqruff_verif)]
+        if verif_hit && verif_switches::audit_enter() {
+            let fresh = matcher.match_segments(segments, idx, parse_context);
+            verif_switches::audit_exit(res_match.as_ref().unwrap(), fresh.as_ref().ok(), matcher_key, idx);
+        }
 
         let res_match = match res_match {
             Some(res_match) => res_match,
@@ -742,6 +747,45 @@ pub mod verif_switches {
             }
         });
     }
+    // ---- audit of cache hits: is the cached entry what matching would compute here and now?
+    thread_local! {
+        static AUDIT: RefCell<Option<(usize, usize, Option<String>, bool)>> = const { RefCell::new(None) };
+    }
+    /// start auditing cache hits on this thread
+    pub fn audit_start() {
+        AUDIT.with(|a| *a.borrow_mut() = Some((0, 0, None, false)));
+    }
+    /// stop auditing: (hits audited, hits whose cached result differs from a recomputation, first example)
+    pub fn audit_take() -> (usize, usize, Option<String>) {
+        AUDIT.with(|a| a.borrow_mut().take().map(|x| (x.0, x.1, x.2)).unwrap_or((0, 0, None)))
+    }
+    /// true when this hit is to be audited (auditing is on and we are not inside an audit recomputation)
+    pub fn audit_enter() -> bool {
+        AUDIT.with(|a| match a.borrow_mut().as_mut() {
+            Some(st) if !st.3 => {
+                st.3 = true;
+                true
+            }
+            _ => false,
+        })
+    }
+    pub fn audit_exit(cached: &MatchResult, fresh: Option<&MatchResult>, key: u32, idx: u32) {
+        AUDIT.with(|a| {
+            if let Some(st) = a.borrow_mut().as_mut() {
+                st.3 = false;
+                st.0 += 1;
+                let c = format!("{:?}", cached);
+                let f = fresh.map(|m| format!("{:?}", m)).unwrap_or_else(|| "Err".to_string());
+                if c != f {
+                    st.1 += 1;
+                    if st.2.is_none() {
+                        st.2 = Some(format!("key {key} at token {idx}: cached {c} / recomputed {f}"));
+                    }
+                }
+            }
+        });
+    }
+
     pub fn lm_exit(res: &MatchResult, chosen: Option<u32>) {
         REC.with(|r| {
             if let Some(rec) = r.borrow_mut().as_mut() {
